@@ -803,7 +803,70 @@ static void op_sweep(const VhLine *l) {
     }
 }
 
-const VhOp vh_scalar_ops[] = {{"tagged.all", op_tagged_all},
+/* ------------------------------------------------------------------ per-length maxima (C04) */
+static int fam_len(const char *fam, uint64_t v) {
+    int pl = 0;
+    if (strcmp(fam, "tagged") == 0) {
+        return (int)varintTaggedLen(v);
+    } else if (strcmp(fam, "ext") == 0) {
+        varintWidth w;
+        varintExternalUnsignedEncoding(v, w);
+        return (int)w;
+    } else if (strcmp(fam, "chained") == 0) {
+        return (int)varintChainedVarintLen(v);
+    } else if (strcmp(fam, "split") == 0) {
+        varintSplitLength_(pl, v);
+    } else if (strcmp(fam, "sfull") == 0) {
+        varintSplitFullLength_(pl, v);
+    } else if (strcmp(fam, "snz") == 0) {
+        varintSplitFullNoZeroLength_(pl, v);
+    } else if (strcmp(fam, "s16") == 0) {
+        varintSplitFull16Length_(pl, v);
+    }
+    return pl;
+}
+/* maxcell <fam> <k> <m> : is m the largest value the family stores in k bytes? (README cells) */
+static void op_maxcell(const VhLine *l) {
+    const char *fam = arg(l, 1);
+    int k = (int)p_u64(arg(l, 2));
+    uint64_t m = p_u64(arg(l, 3));
+    int a = fam_len(fam, m), b = m == UINT64_MAX ? 10 : fam_len(fam, m + 1);
+    out("l=%d l1=%d", a, b);
+    if (!(a <= k && k < b)) {
+        mon("C04", "documented %d-byte maximum of %s is %" PRIu64 " but the code needs %d bytes for it and %d for the next value", k,
+            fam, m, a, b);
+    }
+}
+/* hdrmax <fam> <k> : the header constant for the k-byte maximum, as compiled */
+static void op_hdrmax(const VhLine *l) {
+    const char *fam = arg(l, 1);
+    int k = (int)p_u64(arg(l, 2));
+    static const uint64_t tg[10] = {0, VARINT_TAGGED_MAX_1, VARINT_TAGGED_MAX_2, VARINT_TAGGED_MAX_3,
+                                    VARINT_TAGGED_MAX_4, VARINT_TAGGED_MAX_5, VARINT_TAGGED_MAX_6,
+                                    VARINT_TAGGED_MAX_7, VARINT_TAGGED_MAX_8, VARINT_TAGGED_MAX_9};
+    static const uint64_t sf[10] = {0, VARINT_SPLIT_FULL_STORAGE_1, VARINT_SPLIT_FULL_STORAGE_2, 0,
+                                    VARINT_SPLIT_FULL_STORAGE_4, VARINT_SPLIT_FULL_STORAGE_5,
+                                    VARINT_SPLIT_FULL_STORAGE_6, VARINT_SPLIT_FULL_STORAGE_7,
+                                    VARINT_SPLIT_FULL_STORAGE_8, VARINT_SPLIT_FULL_STORAGE_9};
+    static const uint64_t nz[10] = {0, VARINT_SPLIT_FULL_NO_ZERO_STORAGE_1, VARINT_SPLIT_FULL_NO_ZERO_STORAGE_2, 0,
+                                    VARINT_SPLIT_FULL_NO_ZERO_STORAGE_4, VARINT_SPLIT_FULL_NO_ZERO_STORAGE_5,
+                                    VARINT_SPLIT_FULL_NO_ZERO_STORAGE_6, VARINT_SPLIT_FULL_NO_ZERO_STORAGE_7,
+                                    VARINT_SPLIT_FULL_NO_ZERO_STORAGE_8, VARINT_SPLIT_FULL_NO_ZERO_STORAGE_9};
+    if (k < 1 || k > 9 || (k == 3 && strcmp(fam, "tagged") != 0)) {
+        out("bad-k");
+        return;
+    }
+    uint64_t m = strcmp(fam, "tagged") == 0 ? tg[k] : strcmp(fam, "sfull") == 0 ? sf[k] : nz[k];
+    int a = fam_len(fam, m), b = m == UINT64_MAX ? 10 : fam_len(fam, m + 1);
+    out("m=%" PRIx64 " l=%d l1=%d", m, a, b);
+    if (!(a <= k && k < b)) {
+        mon("C04", "header constant for the %d-byte maximum of %s is %" PRIu64 " but the code needs %d bytes for it and %d for the next value",
+            k, fam, m, a, b);
+    }
+}
+
+const VhOp vh_scalar_ops[] = {{"maxcell", op_maxcell},
+                              {"hdrmax", op_hdrmax},{"tagged.all", op_tagged_all},
                               {"tagged.fixed", op_tagged_fixed},
                               {"tagged.getn", op_tagged_getn},
                               {"tagged.add", op_tagged_add},
